@@ -1,7 +1,14 @@
-"""C02: see DESIGN.md section 3."""
-import c10
+"""C02 flush_meta + reopen preserves every byte.
+(1) proof gate: coq/Props/C02.v - over the functions regenerated from src/dev/cache.rs: the slice-key window that
+    flush_meta_generic flushes for a dirty top-table block contains every slice under that block;
+(2) exploration: sweep, flush_meta, snapshot, reopen with other parameters, sweep on sampled histories
+    (library-formatted and independently built images, short histories too)."""
+import c10, common
+
+CONE = ['Base/RExpr.v', 'Base/Bits.v', 'Model/Codec.v', 'Proofs/Geometry.v', 'Proofs/GenEq.v', 'Proofs/ArgProps.v', 'Proofs/GeqMore.v', 'Props/C02.v']
 
 
 def run(tier, seed, replay):
     n = 60 if tier == 'quick' else 1500
-    return c10.run_foreign('C02', tier, seed, ('reopen',), n, 'Sweep, flush_meta, snapshot, reopen with other parameters, sweep: reads and get_mapping must agree.', plain_n=(90 if tier == 'quick' else 1500))
+    gate = common.proof_gate('C02', CONE)
+    return c10.run_foreign('C02', tier, seed, ('reopen',), n, 'Flush-window theorems over the regenerated key helpers (Props/C02.v) + sweep, flush_meta, snapshot, reopen with other parameters, sweep: reads and get_mapping must agree.', plain_n=(90 if tier == 'quick' else 1500), gate=gate)
